@@ -1,16 +1,19 @@
 (* C04 - lazily written ENTRY records (record_trace_data) and the flush of the open calls
-   (segv_handler, PLT_FL_FLUSH): what has been written so far is a prefix of the eager trace,
-   and written + flush = the eager trace: after the crash handler ran, every open call has its
-   ENTRY record. *)
+   (segv_handler, PLT_FL_FLUSH), with NORECORD frames on the return stack: what has been written
+   so far is a prefix of the eager trace, and written + flush = the eager trace: after the crash
+   handler ran, every open RECORDABLE call has its ENTRY record - also when the innermost frame
+   (the one the handler passes to record_trace_data) is a NORECORD frame. *)
 From Coq Require Import NArith List Bool Arith Lia.
 Import ListNotations.
 Require Import UV.Gen.Consts UV.C04.Model.
 
 Definition nw (stk : list frame) : nat := unwritten_top (rev stk).
 Definition keep (stk : list frame) : nat := length stk - nw stk.
-Definition pending (stk : list frame) : list rec := entries_from (keep stk) (skipn (keep stk) stk).
-Definition closed (stk : list frame) : Prop := forallb fr_written (firstn (keep stk) stk) = true.
-Definition allw (stk : list frame) : Prop := forallb fr_written stk = true.
+Definition pending (stk : list frame) : list rec :=
+  entries_from (rdepth (firstn (keep stk) stk)) (skipn (keep stk) stk).
+Definition ws (f : frame) : bool := fr_written f || fr_skip f.
+Definition closed (stk : list frame) : Prop := forallb ws (firstn (keep stk) stk) = true.
+Definition allws (stk : list frame) : Prop := forallb ws stk = true.
 Definition strip (stk : list frame) : list call := map fr_call stk.
 
 Lemma unwritten_top_le l : unwritten_top l <= length l.
@@ -22,6 +25,14 @@ Proof. unfold keep. lia. Qed.
 
 Lemma rev_nil_inv {A} (l : list A) : rev l = [] -> l = [].
 Proof. intro H. rewrite <- (rev_involutive l), H. reflexivity. Qed.
+
+Lemma rdepth_app a b : rdepth (a ++ b) = rdepth a + rdepth b.
+Proof. unfold rdepth. rewrite filter_app, app_length. reflexivity. Qed.
+Lemma cdepth_strip stk : cdepth (strip stk) = rdepth stk.
+Proof.
+  unfold cdepth, rdepth, strip. induction stk as [|f l IH]; [reflexivity|]. cbn.
+  unfold fr_skip at 1. destruct (c_skip (fr_call f)); cbn; [exact IH | f_equal; exact IH].
+Qed.
 
 Lemma flush_entries_spec stk :
   flush_entries stk = (pending stk, firstn (keep stk) stk ++ map mark (skipn (keep stk) stk)).
@@ -37,11 +48,13 @@ Qed.
 Lemma segv_flush_pending stk : segv_flush stk = pending stk.
 Proof. unfold segv_flush. rewrite flush_entries_spec. reflexivity. Qed.
 
-Lemma entries_from_app d a b : entries_from d (a ++ b) = entries_from d a ++ entries_from (d + length a) b.
+Lemma entries_from_app d a b : entries_from d (a ++ b) = entries_from d a ++ entries_from (d + rdepth a) b.
 Proof.
-  revert d; induction a as [|f a IH]; intro d; cbn.
-  - rewrite Nat.add_0_r. reflexivity.
-  - f_equal. rewrite IH. f_equal. f_equal. lia.
+  revert d; induction a as [|f a IH]; intro d; cbn [app entries_from].
+  - unfold rdepth. cbn. rewrite Nat.add_0_r. reflexivity.
+  - unfold rdepth. cbn [filter]. destruct (fr_skip f) eqn:E; cbn [negb length].
+    + apply IH.
+    + cbn [app]. f_equal. rewrite IH. f_equal. f_equal. unfold rdepth. lia.
 Qed.
 
 Lemma nw_snoc stk f : fr_written f = false -> nw (stk ++ [f]) = S (nw stk).
@@ -49,29 +62,58 @@ Proof. intro H. unfold nw. rewrite rev_app_distr. cbn. rewrite H. reflexivity. Q
 Lemma keep_snoc stk f : fr_written f = false -> keep (stk ++ [f]) = keep stk.
 Proof. intro H. unfold keep. rewrite (nw_snoc _ _ H), app_length. cbn [length]. pose proof (nw_le stk). lia. Qed.
 
+Lemma firstn_app_le {A} n (a b : list A) : n <= length a -> firstn n (a ++ b) = firstn n a.
+Proof. intro H. rewrite firstn_app. replace (n - length a) with 0 by lia. cbn. apply app_nil_r. Qed.
+Lemma skipn_app_le {A} n (a b : list A) : n <= length a -> skipn n (a ++ b) = skipn n a ++ b.
+Proof. intro H. rewrite skipn_app. replace (n - length a) with 0 by lia. reflexivity. Qed.
+
 Lemma pending_snoc stk f :
-  fr_written f = false -> pending (stk ++ [f]) = pending stk ++ [entry_rec (length stk) (fr_call f)].
+  fr_written f = false ->
+  pending (stk ++ [f]) = pending stk ++ (if fr_skip f then [] else [entry_rec (rdepth stk) (fr_call f)]).
 Proof.
   intro H. unfold pending. rewrite (keep_snoc _ _ H).
   pose proof (keep_le stk) as Hk.
-  rewrite skipn_app. replace (keep stk - length stk) with 0 by lia. cbn [skipn].
-  rewrite entries_from_app. cbn [entries_from]. f_equal. f_equal. f_equal. rewrite skipn_length. lia.
+  rewrite firstn_app_le, skipn_app_le by exact Hk.
+  rewrite entries_from_app. f_equal. cbn [entries_from].
+  destruct (fr_skip f); [reflexivity|]. f_equal. f_equal.
+  rewrite <- rdepth_app, firstn_skipn. reflexivity.
 Qed.
 Lemma closed_snoc stk f : fr_written f = false -> closed stk -> closed (stk ++ [f]).
 Proof.
   intros H Hc. unfold closed in *. rewrite (keep_snoc _ _ H).
-  pose proof (keep_le stk) as Hk.
-  rewrite firstn_app. replace (keep stk - length stk) with 0 by lia. cbn. rewrite app_nil_r. exact Hc.
+  rewrite firstn_app_le by apply keep_le. exact Hc.
 Qed.
 
-Lemma allw_facts stk : allw stk -> nw stk = 0 /\ pending stk = [] /\ closed stk.
+Lemma entries_all_skip d l : forallb fr_skip l = true -> entries_from d l = [].
 Proof.
-  intro H. assert (Hn : nw stk = 0).
-  { unfold nw. destruct (rev stk) as [|top below] eqn:E; [reflexivity|]. cbn.
-    assert (Hin : In top stk) by (apply in_rev; rewrite E; left; reflexivity).
-    unfold allw in H. rewrite forallb_forall in H. rewrite (H top Hin). reflexivity. }
-  split; [exact Hn|]. unfold pending, closed, keep. rewrite Hn, Nat.sub_0_r, skipn_all, firstn_all.
-  split; [reflexivity|exact H].
+  revert d; induction l as [|f l IH]; intros d H; [reflexivity|]. cbn in *.
+  apply andb_true_iff in H. destruct H as [H1 H2]. rewrite H1. apply IH. exact H2.
+Qed.
+
+(* frames above the topmost WRITTEN frame are not written *)
+Lemma unwritten_above l : forallb (fun f => negb (fr_written f)) (firstn (unwritten_top l) l) = true.
+Proof.
+  induction l as [|f l IH]; [reflexivity|]. cbn. destruct (fr_written f) eqn:E; [reflexivity|].
+  cbn. rewrite E. cbn. exact IH.
+Qed.
+Lemma skipn_keep_unwritten stk : forallb (fun f => negb (fr_written f)) (skipn (keep stk) stk) = true.
+Proof.
+  pose proof (unwritten_above (rev stk)) as H. fold (nw stk) in H.
+  rewrite firstn_rev in H. fold (keep stk) in H.
+  rewrite forallb_forall in *. intros f Hf. apply H. apply -> in_rev. exact Hf.
+Qed.
+
+Lemma allws_facts stk : allws stk -> pending stk = [] /\ closed stk.
+Proof.
+  intro H. unfold allws in H. split.
+  - unfold pending. apply entries_all_skip.
+    pose proof (skipn_keep_unwritten stk) as Hu.
+    rewrite forallb_forall in *. intros f Hf.
+    assert (Hin : In f stk) by (rewrite <- (firstn_skipn (keep stk) stk); apply in_or_app; right; exact Hf).
+    specialize (H f Hin). specialize (Hu f Hf). unfold ws in H.
+    destruct (fr_written f); [discriminate|exact H].
+  - unfold closed. rewrite forallb_forall in *. intros f Hf. apply H.
+    rewrite <- (firstn_skipn (keep stk) stk). apply in_or_app. left. exact Hf.
 Qed.
 
 Lemma forallb_removelast {A} (p : A -> bool) l : forallb p l = true -> forallb p (removelast l) = true.
@@ -82,14 +124,20 @@ Qed.
 Lemma map_removelast {A B} (f : A -> B) l : map f (removelast l) = removelast (map f l).
 Proof. induction l as [|x l IH]; [reflexivity|]. destruct l as [|y l']; [reflexivity|]. cbn in *. f_equal. exact IH. Qed.
 
-Lemma flushed_allw stk : closed stk -> allw (firstn (keep stk) stk ++ map mark (skipn (keep stk) stk)).
+Lemma mark_ws f : ws (mark f) = true.
+Proof. unfold ws, mark. destruct (fr_skip f) eqn:E; [rewrite E; apply orb_true_r | reflexivity]. Qed.
+Lemma mark_call f : fr_call (mark f) = fr_call f.
+Proof. unfold mark. destruct (fr_skip f); reflexivity. Qed.
+
+Lemma flushed_allws stk : closed stk -> allws (firstn (keep stk) stk ++ map mark (skipn (keep stk) stk)).
 Proof.
-  intro H. unfold allw. rewrite forallb_app. rewrite H. cbn.
-  rewrite forallb_forall. intros f Hf. apply in_map_iff in Hf. destruct Hf as [g [<- _]]. reflexivity.
+  intro H. unfold allws. rewrite forallb_app. rewrite H. cbn.
+  rewrite forallb_forall. intros f Hf. apply in_map_iff in Hf. destruct Hf as [g [<- _]]. apply mark_ws.
 Qed.
 Lemma flushed_strip stk : strip (firstn (keep stk) stk ++ map mark (skipn (keep stk) stk)) = strip stk.
 Proof.
-  unfold strip. rewrite map_app, map_map. cbn [mark fr_call].
+  unfold strip. rewrite map_app, map_map.
+  rewrite (map_ext (fun x => fr_call (mark x)) fr_call) by apply mark_call.
   rewrite <- map_app, firstn_skipn. reflexivity.
 Qed.
 
@@ -101,6 +149,9 @@ Proof. cbn [ops_run]. destruct (op_step stk o) as [s1 rs]. cbn. destruct (ops_ru
 Lemma rev_strip_top stk top below : rev stk = top :: below -> rev (strip stk) = fr_call top :: map fr_call below.
 Proof. intro H. unfold strip. rewrite <- map_rev, H. reflexivity. Qed.
 
+Lemma strip_removelast stk : strip (removelast stk) = removelast (strip stk).
+Proof. unfold strip. apply map_removelast. Qed.
+
 (* written so far + what a flush would add = the eager trace *)
 Lemma lazy_eager ops : forall stk,
   closed stk -> wf_ops (strip stk) ops = true ->
@@ -108,30 +159,56 @@ Lemma lazy_eager ops : forall stk,
 Proof.
   induction ops as [|o r IH]; intros stk Hc Hwf.
   - cbn. rewrite app_nil_r. reflexivity.
-  - rewrite ops_run_cons. cbn [fst snd concat]. destruct o as [a t pl|t pl].
+  - rewrite ops_run_cons. cbn [fst snd concat]. destruct o as [a t pl sk|t pl].
     + (* entry *)
       cbn [op_step fst snd app]. cbn [wf_ops] in Hwf. cbn [eager].
-      assert (Hs : strip (stk ++ [new_frame a t pl]) = strip stk ++ [{| c_addr := a; c_start := t; c_pl := pl |}]).
+      assert (Hs : strip (stk ++ [new_frame a t pl sk]) = strip stk ++ [{| c_addr := a; c_start := t; c_pl := pl; c_skip := sk |}]).
       { unfold strip. rewrite map_app. reflexivity. }
-      rewrite (IH (stk ++ [new_frame a t pl])); [| apply closed_snoc; [reflexivity|exact Hc] | rewrite Hs; exact Hwf].
-      rewrite pending_snoc by reflexivity. rewrite Hs, <- app_assoc. cbn.
-      unfold strip. rewrite map_length. reflexivity.
+      rewrite (IH (stk ++ [new_frame a t pl sk])); [| apply closed_snoc; [reflexivity|exact Hc] | rewrite Hs; exact Hwf].
+      rewrite pending_snoc by reflexivity. rewrite Hs, <- app_assoc.
+      unfold fr_skip. cbn [new_frame fr_call c_skip].
+      destruct sk; cbn [app]; [reflexivity|]. rewrite cdepth_strip. reflexivity.
     + (* exit *)
       cbn [wf_ops] in Hwf. cbn [eager].
       destruct (rev stk) as [|top below] eqn:E.
       { apply rev_nil_inv in E. subst. cbn in Hwf. discriminate. }
       rewrite (rev_strip_top stk top below E) in *.
       apply andb_true_iff in Hwf. destruct Hwf as [Ht Hwf].
-      unfold op_step. rewrite E. rewrite Ht. cbn [orb].
-      rewrite flush_entries_spec. cbn [fst snd].
-      set (stk' := firstn (keep stk) stk ++ map mark (skipn (keep stk) stk)).
-      assert (Hall : allw (removelast stk')) by (apply forallb_removelast, flushed_allw; exact Hc).
-      destruct (allw_facts _ Hall) as [_ [Hp Hcl]].
-      assert (Hs : strip (removelast stk') = removelast (strip stk)).
-      { unfold strip at 1. rewrite map_removelast. fold (strip stk'). unfold stk'. rewrite flushed_strip. reflexivity. }
-      rewrite <- app_assoc. rewrite (IH (removelast stk')); [| exact Hcl | rewrite Hs; exact Hwf].
-      rewrite Hp, Hs. cbn [app]. rewrite <- app_assoc. cbn [app].
-      unfold strip. rewrite map_length. reflexivity.
+      unfold op_step. rewrite E.
+      change (c_skip (fr_call top)) with (fr_skip top) in Ht.
+      destruct (fr_skip top) eqn:Esk.
+      * (* a NORECORD frame returns: nothing is written, the frames below are untouched *)
+        cbn [fst snd app].
+        assert (Hrl : stk = removelast stk ++ [top]).
+        { rewrite <- (rev_involutive stk), E. cbn. rewrite removelast_last. reflexivity. }
+        assert (Htw : fr_written top = false \/ fr_written top = true) by (destruct (fr_written top); auto).
+        (* pending and closedness of the stack without its NORECORD top *)
+        assert (Hpc : pending stk = pending (removelast stk) /\ closed (removelast stk)).
+        { destruct Htw as [Hw|Hw].
+          - split.
+            + rewrite Hrl at 1. rewrite pending_snoc by exact Hw. rewrite Esk. apply app_nil_r.
+            + unfold closed in *. rewrite Hrl in Hc. rewrite (keep_snoc _ _ Hw) in Hc.
+              rewrite firstn_app_le in Hc by apply keep_le. exact Hc.
+          - (* a written NORECORD frame does not exist in reachable states; handled for completeness *)
+            assert (Hk : keep stk = length stk).
+            { unfold keep, nw. rewrite E. cbn. rewrite Hw. lia. }
+            assert (Hall : allws (removelast stk)).
+            { unfold closed in Hc. rewrite Hk, firstn_all in Hc. apply forallb_removelast. exact Hc. }
+            destruct (allws_facts _ Hall) as [Hp Hcl]. split; [|exact Hcl].
+            rewrite Hp. unfold pending. rewrite Hk, skipn_all. reflexivity. }
+        destruct Hpc as [Hp Hcl].
+        rewrite (IH (removelast stk)); [| exact Hcl | rewrite strip_removelast; exact Hwf].
+        rewrite Hp, strip_removelast. change (c_skip (fr_call top)) with (fr_skip top). rewrite Esk. reflexivity.
+      * cbn [orb] in Ht. rewrite Ht. cbn [orb].
+        rewrite flush_entries_spec. cbn [fst snd].
+        set (stk' := firstn (keep stk) stk ++ map mark (skipn (keep stk) stk)).
+        assert (Hall : allws (removelast stk')) by (apply forallb_removelast, flushed_allws; exact Hc).
+        destruct (allws_facts _ Hall) as [Hp Hcl].
+        assert (Hs : strip (removelast stk') = removelast (strip stk)).
+        { rewrite strip_removelast. unfold stk'. rewrite flushed_strip. reflexivity. }
+        rewrite <- app_assoc. rewrite (IH (removelast stk')); [| exact Hcl | rewrite Hs; exact Hwf].
+        rewrite Hp, Hs. cbn [app]. rewrite <- app_assoc. cbn [app].
+        rewrite <- strip_removelast, cdepth_strip. change (c_skip (fr_call top)) with (fr_skip top). rewrite Esk. reflexivity.
 Qed.
 
 Lemma closed_nil : closed [].
@@ -149,11 +226,11 @@ Theorem lazy_is_prefix_of_eager ops :
   wf_ops [] ops = true -> exists rest, eager [] ops = concat (snd (ops_run [] ops)) ++ rest.
 Proof. intro H. eexists. symmetry. apply lazy_plus_flush_is_eager. exact H. Qed.
 
-(* the eager trace has an ENTRY for every call that is still open at the end *)
+(* the eager trace has an ENTRY for every recordable call that is still open at the end *)
 Fixpoint final_stack (stk : list call) (ops : list op) : list call :=
   match ops with
   | [] => stk
-  | OEnter a t pl :: r => final_stack (stk ++ [{| c_addr := a; c_start := t; c_pl := pl |}]) r
+  | OEnter a t pl sk :: r => final_stack (stk ++ [{| c_addr := a; c_start := t; c_pl := pl; c_skip := sk |}]) r
   | OExit _ _ :: r => final_stack (removelast stk) r
   end.
 
@@ -164,6 +241,9 @@ Proof.
   cbn [length]. replace (S (S (length l')) - 1) with (S (S (length l') - 1)) by lia. reflexivity.
 Qed.
 
+Lemma firstn_firstn_le {A} i n (l : list A) : i <= n -> firstn i (firstn n l) = firstn i l.
+Proof. intro H. rewrite firstn_firstn. f_equal. lia. Qed.
+
 Lemma nth_error_firstn_some {A} n : forall (l : list A) i c,
   nth_error (firstn n l) i = Some c -> nth_error l i = Some c.
 Proof.
@@ -173,49 +253,47 @@ Proof.
 Qed.
 
 Lemma open_entries_in_eager ops : forall stk i c,
-  nth_error (final_stack stk ops) i = Some c ->
-  (i < length stk /\ nth_error stk i = Some c) \/ In (entry_rec i c) (eager stk ops).
+  nth_error (final_stack stk ops) i = Some c -> c_skip c = false ->
+  (i < length stk /\ nth_error stk i = Some c /\ firstn i (final_stack stk ops) = firstn i stk)
+  \/ In (entry_rec (cdepth (firstn i (final_stack stk ops))) c) (eager stk ops).
 Proof.
-  induction ops as [|o r IH]; intros stk i c H.
-  - cbn in H. left. split; [apply nth_error_Some; congruence | exact H].
-  - destruct o as [a t pl|t pl]; cbn [final_stack eager] in *.
-    + destruct (IH _ _ _ H) as [[Hl Hn]|Hin].
+  induction ops as [|o r IH]; intros stk i c H Hsk.
+  - cbn in H. left. split; [apply nth_error_Some; congruence|]. split; [exact H|reflexivity].
+  - destruct o as [a t pl sk|t pl]; cbn [final_stack eager] in *.
+    + destruct (IH _ _ _ H Hsk) as [[Hl [Hn Hf]]|Hin].
       * rewrite app_length in Hl. cbn in Hl.
         destruct (Nat.eq_dec i (length stk)) as [->|Hne].
         -- rewrite nth_error_app2 in Hn by lia. rewrite Nat.sub_diag in Hn. cbn in Hn.
-           injection Hn as <-. right. left. reflexivity.
-        -- left. split; [lia|]. rewrite nth_error_app1 in Hn by lia. exact Hn.
-      * right. right. exact Hin.
-    + destruct (IH _ _ _ H) as [[Hl Hn]|Hin].
+           injection Hn as <-. cbn [c_skip] in Hsk. subst sk. right. left.
+           rewrite Hf, firstn_app_le, firstn_all by lia. reflexivity.
+        -- left. split; [lia|]. rewrite nth_error_app1 in Hn by lia. split; [exact Hn|].
+           rewrite Hf. apply firstn_app_le. lia.
+      * right. destruct sk; [exact Hin | right; exact Hin].
+    + destruct (IH _ _ _ H Hsk) as [[Hl [Hn Hf]]|Hin].
       * left. rewrite removelast_firstn_len in Hl, Hn. rewrite firstn_length in Hl.
-        split; [lia|]. apply nth_error_firstn_some in Hn. exact Hn.
-      * right. destruct (rev stk) eqn:E; [apply rev_nil_inv in E; subst; exact Hin | right; exact Hin].
+        split; [lia|]. split; [apply nth_error_firstn_some in Hn; exact Hn|].
+        rewrite Hf, removelast_firstn_len. apply firstn_firstn_le. lia.
+      * right. destruct (rev stk) as [|top below] eqn:E; [apply rev_nil_inv in E; subst; exact Hin|].
+        destruct (c_skip top); [exact Hin | right; exact Hin].
 Qed.
 
-(* after the crash handler: every open call of the thread has its ENTRY record in the stream *)
+(* after the crash handler: every open recordable call of the thread has its ENTRY record in the
+   stream, with the depth it was entered at - whatever the innermost frame is *)
 Theorem segv_includes_open_calls ops i c :
   wf_ops [] ops = true ->
-  nth_error (final_stack [] ops) i = Some c ->
-  In (entry_rec i c) (concat (snd (ops_run [] ops)) ++ segv_flush (fst (ops_run [] ops))).
+  nth_error (final_stack [] ops) i = Some c -> c_skip c = false ->
+  In (entry_rec (cdepth (firstn i (final_stack [] ops))) c)
+     (concat (snd (ops_run [] ops)) ++ segv_flush (fst (ops_run [] ops))).
 Proof.
-  intros Hwf H. rewrite (lazy_plus_flush_is_eager ops Hwf).
-  destruct (open_entries_in_eager ops [] i c H) as [[Hl _]|Hin]; [cbn in Hl; lia | exact Hin].
+  intros Hwf H Hsk. rewrite (lazy_plus_flush_is_eager ops Hwf).
+  destruct (open_entries_in_eager ops [] i c H Hsk) as [[Hl _]|Hin]; [cbn in Hl; lia | exact Hin].
 Qed.
 
-(* the model's own stack agrees with final_stack *)
-Lemma final_stack_model ops : forall stk,
-  wf_ops (strip stk) ops = true -> strip (fst (ops_run stk ops)) = final_stack (strip stk) ops.
-Proof.
-  induction ops as [|o r IH]; intros stk Hwf; [reflexivity|].
-  rewrite ops_run_cons. cbn [fst]. destruct o as [a t pl|t pl]; cbn [wf_ops final_stack] in *.
-  - cbn [op_step fst]. rewrite IH; unfold strip; rewrite map_app; [reflexivity|exact Hwf].
-  - destruct (rev stk) as [|top below] eqn:E.
-    { apply rev_nil_inv in E. subst. cbn in Hwf. discriminate. }
-    rewrite (rev_strip_top stk top below E) in Hwf.
-    apply andb_true_iff in Hwf. destruct Hwf as [Ht Hwf].
-    unfold op_step. rewrite E, Ht. cbn [orb]. rewrite flush_entries_spec. cbn [fst].
-    assert (Hs : strip (removelast (firstn (keep stk) stk ++ map mark (skipn (keep stk) stk))) = removelast (strip stk)).
-    { unfold strip at 1. rewrite map_removelast. fold (strip (firstn (keep stk) stk ++ map mark (skipn (keep stk) stk))).
-      rewrite flushed_strip. reflexivity. }
-    rewrite IH; rewrite Hs; [reflexivity|exact Hwf].
-Qed.
+(* non-vacuity and the seeded shape: the innermost frame is NORECORD, its callers are unwritten *)
+Example segv_norecord_innermost :
+  let ops := [OEnter 4096 1000 [] false; OEnter 4352 1100 [] false; OEnter 4608 1200 [] true] in
+  wf_ops [] ops = true
+  /\ concat (snd (ops_run [] ops)) = []
+  /\ map r_addr (segv_flush (fst (ops_run [] ops))) = [4096; 4352]%N
+  /\ map r_depth (segv_flush (fst (ops_run [] ops))) = [0; 1]%N.
+Proof. vm_compute. repeat split; reflexivity. Qed.
